@@ -516,7 +516,12 @@ impl AsyncGenerator {
         generator.borrow_mut().data_mut().context = Some(generator_context);
 
         // 8. Assert: result is never an abrupt completion.
-        assert!(!result.is_throw_completion());
+        //    Engine errors (e.g. a runtime limit) are the exception: they bypass the generator's
+        //    catch-all handler and must be reported to the caller instead of panicking.
+        if let CompletionRecord::Throw(err) = result {
+            assert!(!err.is_catchable());
+            return Err(err);
+        }
 
         // 9. Assert: When we return here, genContext has already been removed from the execution context stack and
         //    callerContext is the currently running execution context.
